@@ -43,7 +43,7 @@ func defsC10(tier string) []*ph.Def {
 					continue
 				}
 				d := &ph.Def{Mode: mode, Unknown: 2, RequireOrder: ro, Root: ph.CmdDef{Name: "prog", NoFn: rootNoFn,
-					Opts: []ph.OptDef{{Name: "ra", Kind: ph.Bool}, {Name: "rs", Kind: ph.Str, DefS: "RD"}, {Name: "oo", Kind: ph.StrOpt, DefS: "OD"}},
+					Opts: []ph.OptDef{{Name: "ra", Kind: ph.Bool}, {Name: "rs", Kind: ph.Str, DefS: "RD"}, {Name: "oo", Kind: ph.StrOpt, DefS: "OD"}, {Name: "sl", Kind: ph.StrS, Min: 1, Max: 2}},
 					Cmds: cmds}}
 				out = append(out, d)
 			}
@@ -133,23 +133,52 @@ func c10Judge(pc *parserCase, verbose bool) ([]string, map[string]bool) {
 	if o.DHasErr {
 		out = append(out, fmt.Sprintf("dispatch: Dispatch returned %q although the command function returned nil", o.DErr))
 	}
+	// start from non-initial states too: the same command line given to a program object that has already served
+	// another Parse+Dispatch round must run the same function, once (option values and leftovers of the earlier
+	// round may persist, so only the identity and number of the functions is compared)
+	if len(out) == 0 && len(pc.Argv) <= c10RoundsMaxLen {
+		for _, pre := range c10Pres {
+			p2 := ph.Build(pc.Def, nil)
+			o1 := p2.Run(pre, true)
+			if o1.Panic != "" || o1.Hang || o1.HasErr || o1.DHasErr || len(o1.Calls) != 1 {
+				p2.Close()
+				continue
+			}
+			p2.Reset()
+			o2 := p2.Run(pc.Argv, true)
+			p2.Close()
+			flags["second_round"] = true
+			if o2.Panic != "" || o2.Hang {
+				continue
+			}
+			if o2.HasErr || o2.DHasErr || len(o2.Calls) != 1 || o2.Calls[0].Path != ex.Level {
+				out = append(out, fmt.Sprintf("dispatch (second round on the same program object, after %q ran %v): %v ran (Parse error %q, Dispatch error %q), want exactly %q as on a fresh object", pre, callPaths(o1), callPaths(o2), o2.ParseErr, o2.DErr, "/"+ex.Level))
+				break
+			}
+		}
+	}
 	return out, flags
 }
+
+// earlier rounds used by the second-round oracle (those that do not succeed on a definition are skipped there)
+var c10Pres = [][]string{{}, {"c1"}, {"c1", "s1"}, {"c2", "p"}, {"--ra", "p"}}
+
+const c10RoundsMaxLen = 3
 
 func init() {
 	parserJudges["C10"] = func(pc *parserCase, verbose bool) []string { m, _ := c10Judge(pc, verbose); return m }
 	register(&Check{
 		ID:        "C10",
 		QuickSecs: 120, ThoroSecs: 1500,
-		Rule: "input-space exploration: 47 command-tree shapes (depth <= 2, fan-out <= 2, options at every level, UnsetOptions wrappers, commands and root without CommandFn) x 3 modes x require-order (off, on the root, on a command only); every argv of length <= L over 14 tokens (command names, sub-command names, options of every level, an option whose value is a command name, an optional-value option with and without attached value, positional, terminator); " +
-			"instrumented CommandFns record which function ran, how often, with which context, arguments and option view; compared with the reference model (deepest command on the command path, remaining arguments, parsed values of own and inherited options); distinct_nontrivial = distinct in-domain cases",
+		Rule: "input-space exploration: 47 command-tree shapes (depth <= 2, fan-out <= 2, options at every level, UnsetOptions wrappers, commands and root without CommandFn) x 3 modes x require-order (off, on the root, on a command only); every argv of length <= L over 15 tokens (command names, sub-command names, options of every level, an option whose value is a command name, an optional-value option with and without attached value, a []string option (1,2) whose extra value may be a command name, positional, terminator); " +
+			"instrumented CommandFns record which function ran, how often, with which context, arguments and option view; compared with the reference model (deepest command on the command path, remaining arguments, parsed values of own and inherited options); every in-domain argv of length <= 3 is also given to a program object that already served one of 5 earlier Parse+Dispatch rounds and must run the same function exactly once; distinct_nontrivial = distinct in-domain cases",
 		Assume: []string{"trees deeper than 2 / wider than 2 and argv longer than L are not covered", "cases where help or a missing required option intervenes belong to C11"},
 		Run: func(c *RunCtx) {
 			depth := 4
 			if c.Tier == "thorough" {
 				depth = 5
 			}
-			alpha := []string{"c1", "c2", "s1", "s2", "--ra", "--rs", "--rs=c1", "--oo", "--oo=x", "--ca", "--cs", "--sa", "p", "--"}
+			alpha := []string{"c1", "c2", "s1", "s2", "--ra", "--rs", "--rs=c1", "--oo", "--oo=x", "--ca", "--cs", "--sa", "p", "--", "--sl"}
 			defs := defsC10(c.Tier)
 			c.Res.Bounds = map[string]any{"L": depth, "alphabet": alpha, "definitions": len(defs)}
 			sw := &sweep{c: c, defs: defs, alpha: alpha, depth: depth}
@@ -162,7 +191,7 @@ func init() {
 				if flags["in_domain"] {
 					res.count("in_domain_cases", 1)
 				}
-				for _, k := range []string{"no_fn", "command_selected", "subcommand_selected"} {
+				for _, k := range []string{"no_fn", "command_selected", "subcommand_selected", "second_round"} {
 					if flags[k] {
 						res.count("in_domain_"+k, 1)
 					}
@@ -178,7 +207,7 @@ func init() {
 			c.Res.Distinct = c.Res.Counters["in_domain_cases"]
 		},
 		Replay:     replayParser,
-		GateCounts: []string{"in_domain_cases", "in_domain_no_fn", "in_domain_command_selected", "in_domain_subcommand_selected"},
+		GateCounts: []string{"in_domain_cases", "in_domain_no_fn", "in_domain_command_selected", "in_domain_subcommand_selected", "in_domain_second_round"},
 	})
 }
 
